@@ -200,6 +200,19 @@ func patternTrial(p string) (step, class, obs, exp string, outcome string) {
 			return fmt.Sprintf("Router.URL(strict=%v)", strict), "router-url-panic", fmt.Sprintf("panic: %v", v), "a string or an error", ""
 		}
 	}
+	// ... and on a router with a URL domain, and through the facades (all of them reach Router.URL)
+	rd := NewRouter(RouterCfg{}, mux.WithURLDomain("https://d/"))
+	for _, strict := range []bool{false, true} {
+		if v, bad := Guard(func() {
+			rd.URL(strict, p, map[string]string{"a": "1"})
+			rd.URL(strict, p, nil)
+			rd.Prefix("").URL(strict, p, nil)
+			rd.Prefix(p).URL(strict, "", nil)
+			rd.Resource(p).URL(strict, nil)
+		}); bad {
+			return fmt.Sprintf("Router.URL(strict=%v) with a URL domain", strict), "router-url-panic", fmt.Sprintf("panic: %v", v), "a string or an error", ""
+		}
+	}
 	// fresh router, no interceptors: registers iff CheckSyntax accepts
 	v, bad := Guard(func() { r.Handle(p, hv.Route("h"), nil, "GET") })
 	outcome = fmt.Sprintf("syntax=%v handle=%v", synErr == nil, !bad)
@@ -399,6 +412,28 @@ func init() {
 				rc.Report(v)
 			}
 		})
+		// an interceptor may be registered under any name - also one that is no regular expression: a pattern that uses
+		// it registers and is served
+		for _, name := range []string{"*", "+", "(hex", "[", "d"} {
+			ri := NewRouter(RouterCfg{}, mux.WithInterceptor(func(s string) bool { return len(s) > 1 }, name))
+			p := "/f/{p:" + name + "}/x"
+			v, bad := Guard(func() { ri.Handle(p, hv.Route("h"), nil, "GET") })
+			o := hv.Serve(ri, hv.Req{Method: "GET", Path: "/f/ab/x"})
+			rc.Add("long_patterns", 1)
+			if bad || o.Paniced || o.Status != 200 {
+				rc.Report(explore.Violation{Property: "C05", Clause: "C05.pattern", Class: "interceptor-name-taken-for-a-regexp", Probe: fmt.Sprintf("WithInterceptor(f, %q); Handle(%q); GET /f/ab/x", name, p),
+					Observed: fmt.Sprintf("Handle panicked=%v (%v); GET -> %s", bad, v, o.Summary()), Expected: "registered and served: the rule names an interceptor of this router"})
+			}
+		}
+		// the empty pattern and the other texts no enumeration prefix produces
+		for _, p := range []string{"", "*", "/", "{", "}"} {
+			step, class, obs, exp, outcome := patternTrial(p)
+			rc.Add("long_patterns", 1)
+			rc.Outcome("special/" + outcome)
+			if class != "" {
+				rc.Report(explore.Violation{Property: "C05", Clause: "C05.pattern", Class: class, Probe: fmt.Sprintf("pattern %q: %s", p, step), Observed: obs, Expected: exp})
+			}
+		}
 		// length classes around the 32767-byte segment limit, in bytes and in characters (3-byte characters: the
 		// limit is reached at 10923 of them), after literal text and after each kind of parameter; every such
 		// pattern goes through the same trial as the short ones (fresh and populated router, renamed twin, URL)
